@@ -529,6 +529,8 @@ def copied_objective(ctx, rng):
             continue
         ctx.case()
         ctx.count("evaluations_on_copied_objectives")
+        if gt is None:
+            ctx.count("copied_objective_collection_not_observable")
         r1, r2 = ref.raw_rows(x1), ref.raw_rows(x2)
         want = ref.value("raw", None, x2)
         g1 = ghost(obj)
@@ -537,8 +539,11 @@ def copied_objective(ctx, rng):
                 "collection-changed-outside-raw-evaluate",
                 f"evaluating on a {how} copy changed the data of the "
                 f"original: {g0[0]} -> {g1[0]} rows", case)
-        elif v != want or gt is None or r1 is None or r2 is None or \
-                gt[0] != r1[0] + r2[0]:
+        elif v != want or (
+                # (the collection is read through private fields: where a
+                # tree names them differently it is simply not observed)
+                gt is not None and r1 is not None and r2 is not None
+                and gt[0] != r1[0] + r2[0]):
             ctx.violation(
                 "copied-objective-differs",
                 f"{how} copy: evaluate = {v!r} (fresh objective {want!r}), "
